@@ -1,6 +1,7 @@
 SPEC = {
-    'module': 'EV.Props.C09',
+    'module': 'EV.Props.C08audit',
     'theorems': ['EV.Mempool.C09_inv', 'EV.Mempool.C09_truthful', 'EV.Mempool.C09_recovers',
+                 'EV.Mempool.chunkPhase_inv', 'EV.Mempool.C09_inv_every_suspension', 'EV.Mempool.refreshRound_quiet_exact',
                  'EV.Mempool.C09_height_guard', 'EV.Mempool.C09_loop',
                  'EV.Mempool.IndexError.C09_counterexample_index_error',
                  # the index side of EnvSound, proved of the index model (EV/Props/C08lookup.lean)
@@ -59,6 +60,10 @@ SPEC = {
         'point of the real coroutines, not proved',
         'exactness of a view computed while an index flush lands during the refresh is not claimed (nor does the '
         'property claim it); the next quiet refresh is exact (C09_recovers)',
+        'invariants AT EVERY SUSPENSION POINT inside a refresh (audit; sessions query between chunk completions): C09_inv is about the end of a refresh; chunkPhase_inv / C09_inv_every_suspension (EV/Props/C08audit.lean) prove MpInv after the removal phase and after ANY prefix of chunk completions in any order, under every sound environment (the removal phase and the deferred loop are synchronous); the race suite still calls check_inv only after each round (mempool.py), not between chunk completions',
+        'C09_height_guard / C09_loop are of the shape "l\' = l or ...": they also hold of a loop that never emits; the positive direction is refreshRound_quiet_exact',
+        '"refresh never raises" is proved for KeyError / IndexError / fuel under Valid; exceptions of read_tx / hashX_from_script (C13) and of the sibling _logging task of the same TaskGroup are outside the model',
+        'the db_height() guard and lookup_utxos are unrelated parameters of the model; DB.state is published before the UTXO batch commits (see C08): a view computed in that window is covered by EnvSound (truthful, possibly stale answers), not by EnvQuiet',
     ],
     'design_ref': 'DESIGN.md §6 C09',
     'level_text': 'proof: under every sound environment (vanished transactions, lookup misses, parents confirmed '
